@@ -30,7 +30,7 @@ def driver(pid, oid, seed, timeout=900):
         # experiments on a scratch copy of the repository (VERIF_REPO): same drivers, path dependency
         # redirected, separate target dir so /repo's build cache is not invalidated
         import shutil
-        crate = os.path.join(VERIF, '.cache', 'replay-alt')
+        crate = os.path.join(VERIF, '.cache', 'replay-alt-' + os.path.basename(R.WORK).replace('.work-alt-', ''))  # one copy per scratch repo: concurrent experiments do not clash
         if os.path.exists(crate):
             shutil.rmtree(crate)
         shutil.copytree(CRATE, crate, ignore=shutil.ignore_patterns('target'))
